@@ -447,3 +447,6 @@ def check(ctx: Ctx) -> None:
     # the settings used for the URLs are the ones save_html copies with: every link of the call chain forwards them
     from .c11 import forwarding_chain
     forwarding_chain(ctx, I, "C12.P2")
+    # the dependencies copied by save_html are those of render(): they must be the resolved list that the markup links
+    from .c10 import render_reports_resolved
+    render_reports_resolved(ctx, I, rule="C12.P2")
